@@ -103,6 +103,7 @@ class Result:
         self.bad: list = []  # (history, event indices, expected obs, got obs)
         self.frame_errs: list = []  # (history, event, errors)
         self.snap_only = 0
+        self.crashed: list = []  # Parts produced by par._guard when a worker task raised
         self.edges_with_output = 0
         self.extra_nodes = 0
 
@@ -125,6 +126,9 @@ def explore(make, events, obs, depth: int, seed: int = 0, perframe=None, batch: 
         batches = [frontier[i:i + batch] for i in range(0, len(frontier), batch)]
         nxt = []
         for recs in par.pmap(_expand, batches, seed=seed):
+            if not isinstance(recs, list):
+                res.crashed.append(recs)
+                continue
             for dg, i, child, o, errs in recs:
                 edges[(dg, i)] = (child, o)
                 res.transitions += 1
@@ -148,7 +152,11 @@ def explore(make, events, obs, depth: int, seed: int = 0, perframe=None, batch: 
         rounds += 1
         batches = _commute_tasks(work, len(_G["events"]))
         extra = []
-        for bad, snapdiff, runs in par.pmap(_commute, batches, seed=seed):
+        for rr in par.pmap(_commute, batches, seed=seed):
+            if not isinstance(rr, tuple):
+                res.crashed.append(rr)
+                continue
+            bad, snapdiff, runs = rr
             res.chunk_runs += runs
             res.bad.extend(bad)
             res.snap_only += len(snapdiff)
@@ -173,6 +181,9 @@ def explore(make, events, obs, depth: int, seed: int = 0, perframe=None, batch: 
             batches = [frontier[i:i + batch] for i in range(0, len(frontier), batch)]
             nxt = []
             for recs in par.pmap(_expand, batches, seed=seed):
+                if not isinstance(recs, list):
+                    res.crashed.append(recs)
+                    continue
                 for dg, i, child, o, errs in recs:
                     edges[(dg, i)] = (child, o)
                     res.transitions += 1
